@@ -97,6 +97,8 @@ example :
 
 /-! ### 2. the map-call dimension rule -/
 
+/-! ### definitional unfoldings (documentation of the model – "the model accepts iff the model's condition holds" –, not guarantees about the code; their weight is the per-run differential against the real compiler) -/
+
 /-- An output `o : t` of a call is seen by later bindings as `t` (plain call),
 `t[]` (call mapped over arrays) or `map<t>` (call mapped over a typed map); in
 the last case the reference is rejected when `t` already contains a typed map
@@ -110,6 +112,8 @@ theorem mapcall_dim (Γ : Env) (id o : Bytes) (sig : CallSig) (t : Ty)
       | .map => if (dims t).2 = 0 then some (.tmap t) else none := by
   simp only [refType, hc, ho, fieldType_nil, liftMode]
   cases sig.mode <;> rfl
+
+/-! ### 2. the map-call dimension rule (continued) -/
 
 /-- The same rule for projections of any depth: the type of `ID.o.path` is the
 type of the projection out of the *lifted* struct of all outputs. -/
@@ -440,6 +444,8 @@ theorem storeOk_map_call_key_witness :
     valid (.tmap (.base .int)) (.obj [(kslash, .num (.int 1))]) = true ∧
     valid sig.whole (.obj [(kslash, .obj [(ko, .str kx)])]) = false := by decide
 
+/-! ### definitional unfoldings (documentation of the model – "the model accepts iff the model's condition holds" –, not guarantees about the code; their weight is the per-run differential against the real compiler) -/
+
 /-- `ref_iff` for references into calls -/
 theorem ref_iff_call (Γ : Env) (t : Ty) (id : Bytes) (p : List Bytes) (s : Ty)
     (hr : refType Γ (.call id p) = some s) :
@@ -448,6 +454,8 @@ theorem ref_iff_call (Γ : Env) (t : Ty) (id : Bytes) (p : List Bytes) (s : Ty)
   | base b => simp [validExp, validBase, refOk, hr]
   | _ => simp [validExp, refOk, hr]
 
+/-! ### 3c. what `StoreOk` demands of MAPPED calls (M3) (continued) -/
+
 /-! ### 4. the rejection direction: what an accepted literal / reference must look like -/
 
 /-! (Most of §4, and `mapcall_dim`, `checkCalls_cons_iff`, `validPipeline_iff`, `validPipelineU_iff`,
@@ -455,6 +463,8 @@ theorem ref_iff_call (Γ : Env) (t : Ty) (id : Bytes) (p : List Bytes) (s : Ty)
 `wildcard_expansion_iff`, `wildcard_members_ref_iff` are DEFINITIONAL UNFOLDINGS: documentation of the
 model – "the model accepts iff the model's condition holds" –, not guarantees about the code.  Their
 weight is the per-run differential of the model against the real compiler.) -/
+
+/-! ### definitional unfoldings (documentation of the model – "the model accepts iff the model's condition holds" –, not guarantees about the code; their weight is the per-run differential against the real compiler) -/
 
 /-- string literals are accepted exactly for `string`, `file`, `path` and user file types -/
 theorem str_literal_iff (Γ : Env) (t : Ty) (s : Bytes) :
@@ -542,6 +552,8 @@ theorem struct_literal_iff (Γ : Env) (t : Ty) (kvs : KVs) :
     · rintro ⟨_, _, ⟨rfl, rfl⟩, h⟩; exact h
   | _ => simp [validExp]
 
+/-! ### 4. the rejection direction: what an accepted literal / reference must look like (continued) -/
+
 /-- a literal for a struct type that lacks a declared member is rejected -/
 theorem struct_missing_field_rejected (Γ : Env) (n : Bytes) (fs : Fields) (b : Bool) (kvs : KVs)
     (k : Bytes) (t : Ty) (hk : (k, t) ∈ fs.toList) (hm : kvs.get k = none) :
@@ -573,6 +585,8 @@ example :
     validExp (Γ0 .single) tW (.map true (.cons ka (.int 1) .nil)) = false ∧
     validExp (Γ0 .single) tA (.map true (.cons ka (.int 1) .nil)) = true := by decide
 
+/-! ### definitional unfoldings (documentation of the model – "the model accepts iff the model's condition holds" –, not guarantees about the code; their weight is the per-run differential against the real compiler) -/
+
 /-- A reference that does not resolve – unknown pipeline input, call that is
 not made, non-existent output, non-existent or impossible field projection,
 map of map – is rejected for every parameter type, plain or split. -/
@@ -589,6 +603,8 @@ theorem unresolved_ref_rejected (Γ : Env) (t : Ty) (e : Exp)
     | base b => simp [validExp, validBase, refOk, hr]
     | _ => simp [validExp, refOk, hr]
 
+/-! ### 4. the rejection direction: what an accepted literal / reference must look like (continued) -/
+
 /-- the instances of the catalogue: unknown input, call not made, no such
 output, no such field, projection out of a non-struct, nested map -/
 example :
@@ -598,6 +614,8 @@ example :
     refType (Γ0 .single) (.call cP [ko, kx]) = none ∧
     refType (Γ0 .single) (.call cP [ko, ka, ka]) = none ∧
     refType (Γ0 .map) (.call cP [km]) = none := ⟨rfl, rfl, rfl, rfl, rfl, rfl⟩
+
+/-! ### definitional unfoldings (documentation of the model – "the model accepts iff the model's condition holds" –, not guarantees about the code; their weight is the per-run differential against the real compiler) -/
 
 /-- a reference that resolves is accepted exactly when its type has the shape
 the parameter's type class asks for and is assignable (C17's `assignable`) -/
@@ -627,6 +645,8 @@ theorem call_unknown_or_missing_rejected (Γ : Env) (params : List (Bytes × Ty)
     | true =>
       obtain ⟨b, hb', _⟩ := checkCall_bound Γ params binds h x t hp
       rw [hb] at hb'; cases hb'
+
+/-! ### 4. the rejection direction: what an accepted literal / reference must look like (continued) -/
 
 /-- split sources of one call: arrays with arrays, maps with maps; statically
 known lengths must be equal, statically known key sets must be the same -/
@@ -711,6 +731,8 @@ example :
 
 /-! ### 6. wildcard bindings -/
 
+/-! ### definitional unfoldings (documentation of the model – "the model accepts iff the model's condition holds" –, not guarantees about the code; their weight is the per-run differential against the real compiler) -/
+
 /-- What `* = self` / `* = REF` stands for: exactly the bindings `m = REF.m`
 for the members `m` (pipeline inputs, resp. members of the struct type under
 all array / map dimensions of the reference's type) that are parameters of the
@@ -746,6 +768,8 @@ theorem wildcard_members_ref_iff (Γ : Env) (e : Exp) (ms : List (Bytes × Exp))
     · rintro ⟨t', n, fs, ht, hs, rfl⟩
       cases ht
       simp [hs]
+
+/-! ### 6. wildcard bindings (continued) -/
 
 /-- a wildcard over something that is not a struct (or does not resolve) is rejected -/
 theorem wildcard_not_struct_rejected (Γ : Env) (params : List (Bytes × Ty))
@@ -852,6 +876,8 @@ example :
 
 /-! ### 7. modifiers -/
 
+/-! ### definitional unfoldings (documentation of the model – "the model accepts iff the model's condition holds" –, not guarantees about the code; their weight is the per-run differential against the real compiler) -/
+
 /-- The exact acceptance condition of `Modifiers.compile`: no modifier twice in
 `using`; `disabled` is a valid binding for a `bool` (a reference to a `bool`,
 possibly through the `.default` rewrite); a keyword modifier is not repeated in
@@ -875,6 +901,8 @@ theorem modsOk_iff (Γ : Env) (callee : Callee) (binds : List (Bytes × Bind)) (
        (effective m.kwPreflight (usingVal 1 m.usings) && !callee.outs.toList.isEmpty) = false) := by
   simp only [modsOk, List.isEmpty_iff]
   exact modErrs_nil_iff Γ callee binds w m
+
+/-! ### 7. modifiers (continued) -/
 
 /-- SOUNDNESS of `disabled` (FULL strength – `bool` has no assignability hole):
 in a conforming store the modifier of an accepted call evaluates, and to a
@@ -939,6 +967,8 @@ example :
 
 /-! ### 8. retain lists -/
 
+/-! ### definitional unfoldings (documentation of the model – "the model accepts iff the model's condition holds" –, not guarantees about the code; their weight is the per-run differential against the real compiler) -/
+
 /-- a stage's `retain (…)`: every name is an out parameter whose type is not `KindIsNotFile` -/
 theorem stageRetain_iff (outs : Fields) (ids : List Bytes) :
     stageRetainOk outs ids = true ↔ ∀ id ∈ ids, ∃ t, outs.get id = some t ∧ fileKind t ≠ .notFile := by
@@ -967,6 +997,8 @@ theorem pipeRetain_iff (Γ : Env) (refs : List Exp) :
     obtain ⟨t, hg, hk⟩ := h e he
     simpa [hg, retainable] using hk
 
+/-! ### 8. retain lists (continued) -/
+
 example :
     pipeRetainOk (Γ0 .single) [.call cP [ko, kb], .call cP [ko], .self kx []] = true ∧
     pipeRetainOk (Γ0 .single) [.call cP [ko, ka]] = false ∧
@@ -975,6 +1007,8 @@ example :
     stageRetainOk (.cons ko tW (.cons km (.tmap (.base .int)) .nil)) [km] = false := by decide
 
 /-! ### 9. pipelines: calls in dependency order, return bindings, nesting -/
+
+/-! ### definitional unfoldings (documentation of the model – "the model accepts iff the model's condition holds" –, not guarantees about the code; their weight is the per-run differential against the real compiler) -/
 
 /-- one step of `Pipeline.compile`: the call's name is new, its modifiers and
 bindings are accepted in the environment of the calls before it, and the rest is
@@ -1031,6 +1065,8 @@ theorem validPipeline_iff (p : Pipeline) :
       cases ht : pipeRetainOk Γ p.retain with
       | false => simp [hr, ht]
       | true => simp [hr, ht]
+
+/-! ### 9. pipelines: calls in dependency order, return bindings, nesting (continued) -/
 
 /-- RETURN BINDINGS: each declared output of an accepted pipeline is bound
 exactly once, by a binding valid for its type, and nothing else is bound. -/
@@ -1110,6 +1146,8 @@ example :
 
 /-! ### 10. unused inputs and the top-level call statement -/
 
+/-! ### definitional unfoldings (documentation of the model – "the model accepts iff the model's condition holds" –, not guarantees about the code; their weight is the per-run differential against the real compiler) -/
+
 /-- with the `UnusedInputError` check: accepted exactly when accepted without
 it and every input is used by some call binding, modifier or return binding -/
 theorem validPipelineU_iff (p : Pipeline) :
@@ -1136,6 +1174,8 @@ theorem unused_input_iff (p : Pipeline) (x : Bytes) :
     x ∈ unusedInputs p ↔ x ∈ p.ins.map Prod.fst ∧ x ∉ usedInputs p := by
   simp [unusedInputs, List.mem_filter]
 
+/-! ### 10. unused inputs and the top-level call statement (continued) -/
+
 /-- a reference `self.x…` anywhere inside a written binding of a call uses `x`
 (with or without a wildcard after the written bindings) -/
 theorem binding_uses_input (p : Pipeline) (c : CallStm) (k : Bytes) (b : Bind) (x : Bytes)
@@ -1159,6 +1199,8 @@ example :
     unusedInputs (mk (.self ka [])) = [kb] ∧ validPipeline (mk (.self ka [])) = true ∧
       validPipelineU (mk (.self ka [])) = false := by decide
 
+/-! ### definitional unfoldings (documentation of the model – "the model accepts iff the model's condition holds" –, not guarantees about the code; their weight is the per-run differential against the real compiler) -/
+
 /-- exact acceptance condition of a top-level `call` statement -/
 theorem validTop_iff (c : CallStm) :
     validTop c = true ↔
@@ -1171,6 +1213,8 @@ theorem validTop_iff (c : CallStm) :
     cases hu : c.mods.usings <;>
     cases hd : usingDisabled c.mods.usings <;>
     cases hp : effective c.mods.kwPreflight (usingVal 1 c.mods.usings) <;> simp_all
+
+/-! ### 10. unused inputs and the top-level call statement (continued) -/
 
 /-- outside a pipeline nothing resolves: a top-level call with a binding that is
 a reference (plain or split) is rejected -/
@@ -1368,6 +1412,8 @@ theorem disabled_evaluates (Γ : Env) (ρ : Store) (hρ : StoreOk Γ ρ) (c : Ca
     · simp [checkStm, hm] at hchk
   exact disabledRT_sound Γ ρ hρ c.callee c.binds c.wild c.mods hm hw
 
+/-! ### definitional unfoldings (documentation of the model – "the model accepts iff the model's condition holds" –, not guarantees about the code; their weight is the per-run differential against the real compiler) -/
+
 /-- a disabled call is not invoked (the runner `rc` does not occur on the right)
 and its outputs are null – whatever the bindings of the call are -/
 theorem disabled_call_delivers_null (rc : Runner) (Γ : Env) (ρ : Store) (c : CallStm) (sh : Option SplitShape)
@@ -1376,6 +1422,8 @@ theorem disabled_call_delivers_null (rc : Runner) (Γ : Env) (ρ : Store) (c : C
     stepCall rc Γ ρ c =
       .ok ({ Γ with calls := Γ.calls ++ [(c.id, c.sig sh)] }, { ρ with calls := ρ.calls ++ [(c.id, .null)] }) := by
   simp [stepCall, hchk, hab, hd]
+
+/-! ### 12. THE HEADLINE AS ONE THEOREM: whole programs (continued) -/
 
 /-- the static shape of a map call and its run-time fork keys (audit M3): if every
 split argument of the call is a map literal with `n` legal keys
@@ -1386,6 +1434,8 @@ theorem fork_keys_static (Γ : Env) (ρ : Store) (bs : List (Bytes × Bind)) (n 
     (hk : staticLegalKeys n params bs = true) (ha : argLists Γ ρ bs params = some args) :
     ∀ i, i < nforks args → legalName ((splitKeys Γ ρ params bs).getD i []) = true :=
   fork_keys_legal Γ ρ bs n params args hk ha
+
+/-! ### definitional unfoldings (documentation of the model – "the model accepts iff the model's condition holds" –, not guarantees about the code; their weight is the per-run differential against the real compiler) -/
 
 /-- what "the checked run succeeds" means for one call: every value in the
 argument lists has been validated against its parameter's declared type
@@ -1418,6 +1468,8 @@ theorem argLists_checked (Γ : Env) (ρ : Store) (bs : List (Bytes × Bind)) :
             · obtain ⟨t', hm, hv⟩ := argLists_checked Γ ρ bs r as hr a ha
               exact ⟨t', List.mem_cons_of_mem _ hm, hv⟩
         · simp [hc] at h
+
+/-! ### 12. THE HEADLINE AS ONE THEOREM: whole programs (continued) -/
 
 /-! a three-level program: `TOP` calls `L1`, which MAP-calls `L2` over an array
 (one element is the pipeline's input), which calls the stage `P` with a WILDCARD
